@@ -1,3 +1,4 @@
+#![allow(dead_code)]
 //! `mc` — bounded exhaustive model checking of yuvxyb on the real public API.
 //!
 //!   mc run <ID> <quick|thorough> --out <report.json>
@@ -33,6 +34,7 @@ fn run_prop(id: &str, tier: Tier) -> Option<Report> {
         "C13" => props::c13::run(tier),
         "C11" => props::c11::run(tier),
         "C09" => props::c09::run(tier),
+        "C20" => props::c20::run(tier),
         _ => return None,
     })
 }
@@ -66,6 +68,7 @@ fn replay_case(case: &Value) -> Option<(bool, String)> {
         "c13cube" | "c13strat" | "c13stratcase" | "c13unit" => props::c13::replay(case),
         "c11dec" | "c11float" | "c11enc" => props::c11::replay(case),
         "c09" => props::c09::replay(case),
+        "c20exact" => props::c20::replay(case),
         _ => return None,
     })
 }
@@ -128,6 +131,13 @@ fn main() {
                 Some(p) => std::fs::write(p, s).expect("write report"),
                 None => println!("{s}"),
             }
+        }
+        "xdump" => {
+            props::c20::xdump(&args[2]);
+        }
+        "xcompare" => {
+            // mc xcompare <a> <b> <mode>
+            println!("{}", props::c20::xcompare(&args[2], &args[3], &args[4]));
         }
         "child" => {
             // mc child <ID> <tier> <stage> <lo> <hi> <out>
